@@ -150,6 +150,25 @@ def run_case(spec):
             s2 = runner.ort_session(m2)
         except Exception as e:
             hit("result_unloadable")
+            msg = f"{type(e).__name__}: {e}"
+            if runner.classify(msg) == "not_implemented":
+                continue
+            # a result ONNX Runtime refuses to load accepts nothing: judged on the first binding the original runs on
+            # (models that are invalid for reasons listed under C04 are attributed to those mechanisms as usual)
+            first = next(((b, f, o1) for b, fl, outs in zip(binds, feeds_by_b, base) for f, o1 in zip(fl, outs) if o1 is not None), None)
+            if first is not None:
+                b, f, o1 = first
+
+                def passes_load(x, f=f, o1=o1):
+                    st, oo = runner.ort_run(x, f)
+                    return st == "ok"
+
+                culprit = optcommon.attribute(m, o, passes_load, fired, known)
+                viol.append({"key": c03core._key(culprit, "accepts_less"),
+                             "what": f"optimize({c03core._optstr(o)}) yields a model ONNX Runtime cannot load although the original runs "
+                                     f"(binding {b}): {msg[:300]}",
+                             "detail": {"case": label, "binding": b, "binding_class": "load", "opts": o, "fired": list(dict.fromkeys(fired))[:20]}})
+                hit("mismatch")
             continue
         scale = optcommon.reduction_scale(m)
         reported = set()
